@@ -613,6 +613,12 @@ fn check_message_keys(w: &mut World, p: usize, g: usize, id: u64, seals: &[(Vec<
         .iter()
         .any(|(k, n)| *k == key && n.len() == nonce.len() && n[4..] == nonce[4..]);
     if !found {
+        if std::env::var("VERIF_DEBUG").is_ok() {
+            eprintln!("expected key {} nonce {}", hex::encode(&key), hex::encode(&nonce));
+            for (k, n) in seals {
+                eprintln!("  seal key {} nonce {}", hex::encode(k), hex::encode(n));
+            }
+        }
         return Err(viol(
             w,
             "message-key",
